@@ -8,6 +8,8 @@
 (*   ex2[j]  should_exclude_with(tags) again, after a call with `warm`      *)
 (*   mex[j]  the answers of the members of a CompositeTagMatcher            *)
 (*   exc[j]  type name of an escaped exception ("" if none)                 *)
+(*   ex3/run3/mex3[j]  the same calls on the same objects after the lazy    *)
+(*           entries changed their value to combos2[j] (phase 2)            *)
 (* VERDICT lines come from the DEFINITION of the statement only; DIVERGE    *)
 (* lines (informational) compare with the algorithm model of ActiveTags.    *)
 EXTENDS ActiveTags, Json, IOUtils
@@ -18,12 +20,14 @@ Init == i = 1
 R == Rows[i]
 
 \* ---------------------------------------------------------------- current values of a row
+\* phase 1 uses combos[j]; then the driver lets every LAZY entry (cats[k].lazy = "callable" | "vo") return the value
+\* combos2[j][k]; ex3 / run3 / mex3 are observed on the same matcher and provider objects afterwards (phase 2)
 CatIdx(r, m) == {k \in DOMAIN r.cats : m = 0 \/ r.cats[k].mem = m}
 FirstIdx(r, m, c) == LET ks == {k \in CatIdx(r, m) : r.cats[k].name = c} IN CHOOSE k \in ks : \A x \in ks : k <= x
-CurOf(r, j, m) == [c \in {r.cats[k].name : k \in CatIdx(r, m)} |->
-                      LET k == FirstIdx(r, m, c) IN VSpec(r.cats[k].kind, r.cats[k].op, r.cats[k].ch[r.combos[j][k]])]
+CurOf(r, combo, m) == [c \in {r.cats[k].name : k \in CatIdx(r, m)} |->
+                         LET k == FirstIdx(r, m, c) IN VSpec(r.cats[k].kind, r.cats[k].op, r.cats[k].ch[combo[k]])]
+CallOf(r, m) == {r.cats[k].name : k \in {x \in CatIdx(r, m) : r.cats[x].lazy = "callable"}}
 IsVO(r, c) == \E k \in DOMAIN r.cats : r.cats[k].name = c /\ r.cats[k].vo
-NM(r) == IF r.mk = "composite" THEN r.nm ELSE 0
 
 \* ---------------------------------------------------------------- clauses (definition of the statement)
 \* attribution of "observed obs where the definition says D" for the active tags A under current values cur
@@ -40,47 +44,63 @@ Blame(r, A, N, cur, obs, D) ==
                                            THEN (IF \E a \in A : a.cat \in Kn THEN "over.upos+known" ELSE "over.upos")
                                            ELSE "over.uneg">>}
       ELSE {<<IF vo THEN "C19.value_objects" ELSE "C19.exclude", IF obs THEN "over" ELSE "under">>}
+\* one phase (ph = 1 | 2): ex / run / members observed under the current values given by combo.  stale: phase 2 of a
+\* composite provider whose phase 1 answer was right and whose lazy values changed in between -- a wrong answer now is
+\* blamed on the cache (it no longer follows the current value)
+Phase(r, A, N, combo, ex, run, mex, stale, ph) ==
+   (IF run = ex THEN {<<"C19.run_is_negation", "same", ph>>} ELSE {})
+   \cup
+   (IF r.mk = "composite"
+    THEN (IF ex # (\E m \in 1..r.nm : mex[m]) THEN {<<"C19.composite", "any", ph>>} ELSE {})
+         \cup UNION {LET cur == CurOf(r, combo, m) IN
+                     {<<v[1], v[2], ph>> : v \in Blame(r, A, N, cur, mex[m], DefExcludedA(A, N, cur))} : m \in 1..r.nm}
+    ELSE LET cur == CurOf(r, combo, 0)  D == DefExcludedA(A, N, cur) IN
+         IF ph = 2 /\ r.pk = "comp" /\ ex # D /\ stale
+         THEN {<<"C19.provider_cache", "stale", ph>>}
+         ELSE {<<v[1], v[2], ph>> : v \in Blame(r, A, N, cur, ex, D)})
 Judge(r, j, A, N) ==
-      IF r.exc[j] # "" THEN {<<"C19.exclude", "exc">>}
-      ELSE (IF r.run[j] = r.ex[j] THEN {<<"C19.run_is_negation", "same">>} ELSE {})
-        \cup
-        (IF r.mk = "composite"
-         THEN (IF r.ex[j] # (\E m \in 1..r.nm : r.mex[j][m]) THEN {<<"C19.composite", "any">>} ELSE {})
-              \cup UNION {LET cur == CurOf(r, j, m) IN Blame(r, A, N, cur, r.mex[j][m], DefExcludedA(A, N, cur)) : m \in 1..r.nm}
-         ELSE LET cur == CurOf(r, j, 0)  D == DefExcludedA(A, N, cur) IN
-              Blame(r, A, N, cur, r.ex[j], D)
-              \cup (IF r.ex2[j] # r.ex[j] /\ r.ex2[j] # D THEN {<<"C19.provider_cache", "warm">>} ELSE {}))
+   IF r.exc[j] # "" THEN {<<"C19.exclude", "exc", 1>>}
+   ELSE LET D1 == DefExcludedA(A, N, CurOf(r, r.combos[j], 0)) IN
+        Phase(r, A, N, r.combos[j], r.ex[j], r.run[j], r.mex[j], FALSE, 1)
+        \cup (IF r.mk # "composite" /\ r.ex2[j] # r.ex[j] /\ r.ex2[j] # D1 THEN {<<"C19.provider_cache", "warm", 1>>} ELSE {})
+        \cup Phase(r, A, N, r.combos2[j], r.ex3[j], r.run3[j], r.mex3[j], r.ex[j] = D1 /\ r.combos2[j] # r.combos[j], 2)
 Findings(r) == IF ~r.judge THEN {}
                ELSE LET N == SeqToSet(r.N)
                         A == DefActive(r.tags, SeqToSet(r.P), r.sep)      \* the active tags of the row, read once
-                    IN UNION {{<<v[1], v[2], j>> : v \in Judge(r, j, A, N)} : j \in DOMAIN r.combos}
-\* one line per (clause, what): the first observation that shows it
-Minimal(F) == {f \in F : \A g \in F : (g[1] = f[1] /\ g[2] = f[2]) => f[3] <= g[3]}
+                    IN UNION {{<<v[1], v[2], v[3], j>> : v \in Judge(r, j, A, N)} : j \in DOMAIN r.combos}
+\* one line per (clause, what, phase): the first observation that shows it
+Minimal(F) == {f \in F : \A g \in F : (g[1] = f[1] /\ g[2] = f[2] /\ g[3] = f[3]) => f[4] <= g[4]}
 
 \* ---------------------------------------------------------------- prediction of the algorithm model (informational)
-ProvOf(r, j) == IF r.pk = "comp"
-                THEN [pk |-> "comp", mem |-> [m \in 1..Len(r.mpk) |-> [pk |-> r.mpk[m], data |-> CurOf(r, j, m)]]]
-                ELSE [pk |-> r.pk, mem |-> <<[pk |-> r.pk, data |-> CurOf(r, j, 0)]>>]
+ProvOf(r, combo) ==
+   IF r.pk = "comp"
+   THEN [pk |-> "comp", mem |-> [m \in 1..Len(r.mpk) |-> [pk |-> r.mpk[m], data |-> CurOf(r, combo, m), call |-> CallOf(r, m)]]]
+   ELSE [pk |-> r.pk, mem |-> <<[pk |-> r.pk, data |-> CurOf(r, combo, 0), call |-> CallOf(r, 0)]>>]
 Predicted(r, j, sel, wsel) ==
    IF r.mk = "composite"
-   THEN LET provs == [m \in 1..r.nm |-> DictProv(CurOf(r, j, m))] IN
+   THEN LET provs  == [m \in 1..r.nm |-> DictProv(CurOf(r, r.combos[j], m))]
+            provs2 == [m \in 1..r.nm |-> DictProv(CurOf(r, r.combos2[j], m))] IN
         [ex |-> AlgCompositeSel(sel, provs, r.ign), ex2 |-> AlgCompositeSel(sel, provs, r.ign),
-         mex |-> [m \in 1..r.nm |-> AlgExcludedSel(sel, provs[m], r.ign)]]
-   ELSE LET p  == ProvOf(r, j)
+         mex |-> [m \in 1..r.nm |-> AlgExcludedSel(sel, provs[m], r.ign)],
+         ex3 |-> AlgCompositeSel(sel, provs2, r.ign), mex3 |-> [m \in 1..r.nm |-> AlgExcludedSel(sel, provs2[m], r.ign)]]
+   ELSE LET p  == ProvOf(r, r.combos[j])
+            p2 == ProvOf(r, r.combos2[j])
             k1 == AlgCallSel(sel, p, r.ign, EmptyCache)                     \* should_exclude_with
             k2 == AlgCallSel(sel, p, r.ign, k1.cache)                       \* should_run_with
             k3 == AlgCallSel(wsel, p, r.ign, k2.cache)                      \* the warming call
             k4 == AlgCallSel(sel, p, r.ign, k3.cache)
-        IN [ex |-> k1.ex, ex2 |-> k4.ex, mex |-> <<>>]
+            k5 == AlgCallSel(sel, p2, r.ign, k4.cache)                      \* after the lazy values changed
+        IN [ex |-> k1.ex, ex2 |-> k4.ex, mex |-> <<>>, ex3 |-> k5.ex, mex3 |-> <<>>]
 Diverges(r, j, sel, wsel) == r.exc[j] # "" \/ LET q == Predicted(r, j, sel, wsel) IN
                   \/ q.ex # r.ex[j] \/ q.ex2 # r.ex2[j] \/ r.run[j] = r.ex[j]
-                  \/ (r.mk = "composite" /\ \E m \in 1..r.nm : q.mex[m] # r.mex[j][m])
+                  \/ q.ex3 # r.ex3[j] \/ r.run3[j] = r.ex3[j]
+                  \/ (r.mk = "composite" /\ \E m \in 1..r.nm : q.mex[m] # r.mex[j][m] \/ q.mex3[m] # r.mex3[j][m])
 DivergeAt(r) == LET sel  == AlgSelect(r.tags, r.P, r.sep)
                     wsel == AlgSelect(r.warm, r.P, r.sep)
                 IN {j \in DOMAIN r.combos : Diverges(r, j, sel, wsel)}
 
 Next == /\ i <= Len(Rows)
-        /\ \A f \in Minimal(Findings(R)) : PrintT(<<"VERDICT", R.id, f[1], f[3], f[2]>>)
+        /\ \A f \in Minimal(Findings(R)) : PrintT(<<"VERDICT", R.id, f[1], f[4], f[2], f[3]>>)
         /\ LET dv == DivergeAt(R) IN IF dv = {} THEN TRUE ELSE PrintT(<<"DIVERGE", R.id, Cardinality(dv)>>)
         /\ i' = i + 1
 Spec == Init /\ [][Next]_i
